@@ -56,7 +56,8 @@ pub fn rule_json(r: &Value) -> Value {
     let times: Vec<Value> = r["times"].as_array().unwrap().iter().map(win).collect();
     let methods = r["methods"].as_array().unwrap();
     let mut source = Map::new();
-    source.insert("scheme".into(), opt(&s(r, "scheme")));
+    // "any scheme" has two spellings in rule data, absent and the empty string: even ids use the second one
+    source.insert("scheme".into(), if s(r, "scheme").is_empty() && rank % 2 == 0 { json!("") } else { opt(&s(r, "scheme")) });
     source.insert("host".into(), host);
     source.insert("path".into(), json!(path));
     source.insert("ips".into(), if ips.is_empty() { Value::Null } else { json!(ips) });
